@@ -120,4 +120,15 @@ f(G)
 """,
         what="inlined call f(G) where f assigns the global G: parameter p is aliased to G's register and changes with it",
     ),
+    "if_not_constant": dict(
+        src=HDR + """
+LEVEL = 2
+if not LEVEL:
+    db.On = 1
+else:
+    db.Setting = 5
+db.Open = 7
+""",
+        what="`if not <truthy constant>:` with an else branch: both branches are emitted with an unconditional jump over the else branch",
+    ),
 }
